@@ -193,6 +193,17 @@ def run_case(case):
 
     async def main():
         await inv.read_device_info()
+        # the setting definitions as this object reports them right after its own device info: the specification of
+        # WHERE each setting lives for this model (a later change of that is itself a violation)
+        defs0 = {x.id_: (type(x).__name__, x.offset, getattr(x, "scale", None)) for x in inv.settings()}
+        if fam == "DT" and case["chunk"] % 2 == 1:
+            # a second inverter object of the OTHER phase type is set up in the same process afterwards: its model-
+            # specific setting definitions must not replace this object's
+            other_serial = "93000DSN000W0001" if var == "three" else "9010KDTU000W0001"
+            dev2 = devices.make_dt(serial=other_serial, seed=5, fill="hash", comm_addr=None, restrict=False)
+            world.net.add_device("10.0.0.9", C.port_of(tr), dev2)
+            inv2 = goodwe.DT("10.0.0.9", C.port_of(tr), 0, 1, 2)
+            await inv2.read_device_info()
         settings = sorted(inv.settings(), key=lambda s: (s.offset, s.id_))
         if fam == "ES":
             settings = [s for s in settings if s.id_.startswith("eco_mode_")]
@@ -200,6 +211,11 @@ def run_case(case):
             return
         st = settings[case["slot"]]
         cls = type(st).__name__
+        if st.id_ in defs0 and defs0[st.id_] != (cls, st.offset, getattr(st, "scale", None)):
+            add(f"C17:{defs0[st.id_][0]}:definition-changed",
+                f"{fam}/{var}/{tr}: setting {st.id_!r} was {defs0[st.id_]} after read_device_info and is "
+                f"{(cls, st.offset, getattr(st, 'scale', None))} after another inverter object was set up")
+            return
         if case["rep_only"] and st.id_ not in REPRESENTATIVE:
             return
         if cls not in R.WIDTH or R.encode(cls, _probe_value(cls), scale=getattr(st, "scale", None), old_word=b"\0\0") is R.NOVALUE:
